@@ -1021,6 +1021,9 @@ func (r *Runner) subshell(background bool) *Runner {
 		usedNew:        r.usedNew,
 		exit:           r.exit,
 		lastExit:       r.lastExit,
+		inFunc:         r.inFunc,
+		inSource:       r.inSource,
+		noErrExit:      r.noErrExit,
 
 		origStdout: r.origStdout, // used for process substitutions
 	}
